@@ -276,3 +276,55 @@ func statsOf(e *Encoder) Stats {
 	}
 	return e.St
 }
+
+// GenFarLZMA2 generates a legal LZMA2 stream whose matches reach distances up
+// to maxDist (powers of two, their neighbours and the 3*2^k values), i.e. it
+// walks through all distance slots a window of that size can use.  The filler
+// between the probes is a cheap period-4 repetition.
+func GenFarLZMA2(r *prng.R, maxDist int64) (stream, content []byte, probes int) {
+	w := &Window{DictSize: maxDist}
+	p := Props{LC: r.Intn(4), LP: 0, PB: r.Intn(5)}
+	enc := NewEncoder(NewModel(p), w)
+	var todo []int64
+	for k := uint(3); int64(1)<<k <= maxDist; k++ {
+		for _, d := range []int64{1<<k - 1, 1 << k, 1<<k + 1, 3 << (k - 1)} {
+			if d <= maxDist {
+				todo = append(todo, d)
+			}
+		}
+	}
+	first := true
+	flush := func(start int) {
+		body := enc.Finish()
+		kind := "L"
+		if first {
+			kind = "LRND"
+			first = false
+		}
+		stream = append(stream, LZMA2ChunkHeader(kind, len(w.Out)-start, len(body), p)...)
+		stream = append(stream, body...)
+		enc.Restart()
+	}
+	start := 0
+	for i := 0; i < 8; i++ {
+		enc.Put(Op{Kind: OpLit, Byte: byte(r.U64())})
+	}
+	ti := 0
+	for ti < len(todo) {
+		if len(w.Out)-start > MaxLZMA2Unc-600 || enc.Pending() > MaxLZMA2Comp-100 {
+			flush(start)
+			start = len(w.Out)
+		}
+		if int64(len(w.Out)) >= todo[ti] {
+			enc.Put(Op{Kind: OpMatch, Dist: uint32(todo[ti]), Len: r.Range(2, 9)})
+			enc.Put(Op{Kind: OpLit, Byte: byte(r.U64())})
+			probes++
+			ti++
+			continue
+		}
+		enc.Put(Op{Kind: OpMatch, Dist: uint32(r.Pick(4, 4, 8)), Len: MatchMaxLen})
+	}
+	flush(start)
+	stream = append(stream, 0)
+	return stream, w.Out, probes
+}
